@@ -435,6 +435,9 @@ func Value(t *rapid.T, ts spec.TypeSpec, o ValueOpts) spec.ValueSpec {
 			n := UniformRange(t, "len", 1, maxE)
 			if o.Big && Uniform(t, "bigslice", 12) == 0 {
 				n = UniformRange(t, "biglen", 9, 40)
+				if Uniform(t, "varintEdge", 4) == 0 {
+					n = []int{63, 64, 65, 127, 128, 129}[Uniform(t, "edgeLen", 6)] // counts around a varint length boundary
+				}
 			}
 			for i := 0; i < n; i++ {
 				v.Elems = append(v.Elems, Value(t, *ts.Elem, o))
@@ -452,6 +455,9 @@ func Value(t *rapid.T, ts spec.TypeSpec, o ValueOpts) spec.ValueSpec {
 			if o.Big && Uniform(t, "bigmap", 12) == 0 {
 				// more than eight entries: the runtime map grows beyond one group
 				n = UniformRange(t, "biglen", 9, 40)
+				if Uniform(t, "varintEdge", 4) == 0 {
+					n = []int{63, 64, 65, 127, 128, 129}[Uniform(t, "edgeLen", 6)]
+				}
 			}
 			seen := map[string]bool{}
 			for i := 0; i < n; i++ {
